@@ -9,7 +9,7 @@
 From Coq Require Import String.
 From Verif Require Import Dial.
 From VerifGen Require Import Gen.
-From VerifProofs Require Import DialProofs.
+From VerifProofs Require Import DialProofs DialTime.
 
 (* T1: on the working tree the connection deadline is set before the greeting is read, checkConn extends it before
    the NOOP, CloseWithSMTPClient before the QUIT *)
@@ -104,7 +104,7 @@ Proof. vm_compute. reflexivity. Qed.
 (* what an early return that skips EndResponse does (documentation; [endresp] = false): the server is silent at the
    NOOP of checkConn, the NOOP times out, and the deferred QUIT of DialAndSend waits in StartResponse for ever *)
 Example C17_skipped_endresponse_refuted :
-  let w0 := mkW (srv0 [DOk; DOk; DStall] None [] [] HsOk) conn0 (cs0f false) [] in
+  let w0 := mkW (srv0 [DOk; DOk; DStall] None [] [] HsOk) conn0 (cs0f false) [] clk0 in
   outcome_of (run (dial_and_send 8 (cfg17 true) [1%nat]) w0) = Hang.
 Proof. vm_compute. reflexivity. Qed.
 
@@ -112,3 +112,67 @@ Proof. vm_compute. reflexivity. Qed.
 Example C17_example_timeout :
   outcome_of (run (dial 8 (cfg17 true)) (world0 (srv0 [DStall] None [] [] HsOk))) = Returned (Err ETimeout).
 Proof. vm_compute. reflexivity. Qed.
+
+(* ---- the time budget: elapsed time in periods of the configured timeout ([periods] = deadlines waited out, [armings]
+   = SetDeadline calls passed; the connect itself runs under the dial context: one further period) ---- *)
+
+(* for EVERY program over the primitives and EVERY server: periods spent <= arming points passed *)
+Theorem C17_time_budget : forall A (m : prog A) (s : srv), periods (run m (world0 s)) <= armings (run m (world0 s)).
+Proof. exact C17_time_budget_any_l. Qed.
+Print Assumptions C17_time_budget.
+
+(* the arming points a public call passes do not depend on the number of recipients: DialWithContext 1;
+   DialAndSend and Dial+Send+Reset+Close: one per message + 4 (dial, the connection check before the batch, one check
+   after each delivered message, Close; the second, deferred CloseWithSMTPClient passes none once the first succeeded) --
+   linear in the number of MESSAGES of a batch (checkConn re-arms after every delivered message), constant in the
+   recipients of a message *)
+Theorem C17_time_budget_dial : forall fuel cfg (s : srv),
+  periods (run (dial fuel cfg) (world0 s)) <= armings (run (dial fuel cfg) (world0 s)) /\
+  armings (run (dial fuel cfg) (world0 s)) <= 1.
+Proof. exact C17_time_budget_dial_l. Qed.
+Print Assumptions C17_time_budget_dial.
+
+Theorem C17_time_budget_dial_and_send : forall fuel cfg msgs (s : srv),
+  periods (run (dial_and_send fuel cfg msgs) (world0 s)) <= armings (run (dial_and_send fuel cfg msgs) (world0 s)) /\
+  armings (run (dial_and_send fuel cfg msgs) (world0 s)) <= length msgs + 4.
+Proof. exact C17_time_budget_dial_and_send_l. Qed.
+Print Assumptions C17_time_budget_dial_and_send.
+
+Theorem C17_time_budget_session : forall fuel cfg msgs (s : srv),
+  periods (run (session fuel cfg msgs) (world0 s)) <= armings (run (session fuel cfg msgs) (world0 s)) /\
+  armings (run (session fuel cfg msgs) (world0 s)) <= length msgs + 4.
+Proof. exact C17_time_budget_session_l. Qed.
+Print Assumptions C17_time_budget_session.
+
+(* Send / Reset / Close from ANY state: arming points passed by the call: 1 + messages / 1 / 1 *)
+Theorem C17_time_budget_send : forall cfg msgs w,
+  arms (w_clk (snd (run (send_batch cfg msgs) w))) <= arms (w_clk w) + S (length msgs).
+Proof. exact C17_time_budget_send_l. Qed.
+Print Assumptions C17_time_budget_send.
+
+Theorem C17_time_budget_reset : forall cfg w, arms (w_clk (snd (run (reset_client cfg) w))) <= arms (w_clk w) + 1.
+Proof. exact C17_time_budget_reset_l. Qed.
+Print Assumptions C17_time_budget_reset.
+
+Theorem C17_time_budget_close : forall cfg w, arms (w_clk (snd (run (close_client cfg) w))) <= arms (w_clk w) + 1.
+Proof. exact C17_time_budget_close_l. Qed.
+Print Assumptions C17_time_budget_close.
+
+(* T1: the inventory of deadline-(re)arming points of client.go and smtp/smtp.go -- every function that calls
+   Set*Deadline / UpdateDeadline, with the order of that call among the function's protocol calls ("*" = inside a loop) --
+   is exactly this list; a new arming point anywhere (e.g. inside the RCPT loop of sendSingleMsg) breaks the obligation *)
+Theorem C17_source_deadline_inventory : Gen.deadline_inventory =
+  [bs "mail.Client.CloseWithSMTPClient: HasConnection UpdateDeadline Quit HasConnection";
+   bs "mail.Client.DialToSMTPClientWithContext: SetDeadline NewClient Hello";
+   bs "mail.Client.checkConn: HasConnection UpdateDeadline Noop";
+   bs "smtp.Client.UpdateDeadline: SetDeadline"].
+Proof. exact (eq_refl _). Qed.
+Print Assumptions C17_source_deadline_inventory.
+
+(* a re-arming point inside the recipient loop (NOT what the source does): a server that goes silent at the first RCPT
+   costs one period per recipient, against one for the whole loop *)
+Example C17_rearming_in_rcpt_loop_refuted :
+  let w1 := snd (run (dial 8 (cfg17 true)) (world0 (srv0 [DOk; DOk; DStall] None [] [] HsOk))) in
+  spent (w_clk (snd (run (rcpts_rearming 10 false) w1))) = 10%nat /\
+  spent (w_clk (snd (run (rcpts 10 false) w1))) = 1%nat.
+Proof. vm_compute. auto. Qed.
